@@ -260,14 +260,22 @@ pub fn line_of(rng: &mut Rng, frame: &[u8], deco: bool) -> Vec<u8> {
         s.push('\r');
     }
     s.push('\n');
-    s.into_bytes()
+    let mut v = s.into_bytes();
+    // non-hex decoration *inside* the digit string: blanks, tabs, separators, a stray CR, NUL or 0x1A
+    if rng.chance(0.15) {
+        for _ in 0..rng.range(1, 4) {
+            let at = rng.below(v.len() as u64 - 1) as usize;
+            v.insert(at, *rng.pick(&[b' ', b'\t', b',', b':', b'-', b'\r', 0u8, 0x1A, b'x', b'.']));
+        }
+    }
+    v
 }
 
 // ---------------------------------------------------------------------- junk
 
 pub const JUNK_KINDS: &[&str] = &[
     "empty", "blank", "text", "hex13", "hex15", "hex27", "hex29", "hex41", "hex-odd", "high-bytes", "nul",
-    "lone-cr", "overlong", "utf8-multibyte", "truncated-frame", "semicolon-only", "split-utf8", "pow2-len", "pow2-len",
+    "lone-cr", "overlong", "utf8-multibyte", "truncated-frame", "semicolon-only", "split-utf8", "pow2-len", "pow2-len", "ctrl-bytes", "ctrl-z", "bom", "overlong-frame-tail",
 ];
 
 /// A line (with newline) that is unambiguously *not* a frame: its hex-digit
@@ -293,6 +301,19 @@ pub fn junk(rng: &mut Rng, kind: &str) -> Vec<u8> {
         "semicolon-only" => b"*;".to_vec(),
         // first bytes of a multi-byte sequence, cut
         "split-utf8" => vec![b'*', 0xE2, 0x9C, b';'],
+        "ctrl-bytes" => { let n = rng.range(1, 30); (0..n).map(|_| { let c = rng.range(1, 31) as u8; if c == b'\n' { 0x0B } else { c } }).collect() }
+        "ctrl-z" => { let mut x = b"zz".to_vec(); x.push(0x1A); x.extend(b"qq"); x }
+        "bom" => vec![0xEF, 0xBB, 0xBF, b'*', b';'],
+        // a long non-hex filler, two stray digits, and a perfectly valid frame at the very end: as a whole
+        // the line has 30 digits and is junk - a reader that cuts long lines would see the frame
+        "overlong-frame-tail" => {
+            let k = rng.range(7, 17) as u32;
+            let n = ((1i64 << k) + rng.range(-2, 2)).max(8) as usize;
+            let mut v = b"00".to_vec();
+            v.extend(std::iter::repeat(*rng.pick(&[b'x', b' ', b'z'])).take(n));
+            v.extend(b"8D40621D58C382D690C8AC2863A7");
+            v
+        }
         // lengths on and around powers of two (line buffers, caps, chunk sizes), with and without CR
         "pow2-len" => {
             let k = rng.range(5, 17) as u32;
